@@ -25,7 +25,7 @@ RACE_OVERLAY["core/executors/verif_c11_free_test.go"] = os.path.join(
 def drain_ops(case):
     nadds = sum(1 for o in case["ops"] if o[0] == "add")
     k = min(12, nadds + 3)
-    unit = [["relall"], ["qgo"]] if case.get("gateq") else [["relall"]]
+    unit = [["relall"]] + ([["qgo"]] if case.get("gateq") else []) + ([["sgo"]] if case.get("gates") else [])
     return unit * k + [["wait", 0]] + unit * k
 
 
@@ -40,7 +40,7 @@ def analyse(case, obs):
     """Returns dict: failures (list of dict), stats."""
     n = case["nclients"]
     prev = {"idle": [True] * n, "parked": [], "cont": [], "inflight": 0, "guarded": False,
-            "cmd": False, "tick": False, "benter": False, "bexit": False, "qpark": False}
+            "cmd": False, "tick": False, "benter": False, "bexit": False, "qpark": False, "spark": False}
     started, returned, pending, completed, waits = [], [], [], [], []
     fails = []
     hist = [prev]
@@ -73,7 +73,7 @@ def analyse(case, obs):
             fails.append({"kind": "unknown-task", "step": i})
         elif not pending and sorted(visible) != sorted(started):
             fails.append({"kind": "lost", "step": i, "missing": sorted(set(started) - set(visible))})
-        elif o["cont"] and not (o["guarded"] or o["bexit"]):
+        elif o["cont"] and not (o["guarded"] or o["bexit"] or o["spark"]):
             fails.append({"kind": "orphaned-in-container", "step": i, "tasks": o["cont"]})
         prev = o
         hist.append(o)
@@ -103,7 +103,8 @@ class C11(Property):
                   "quiescence detection via runtime.Stack; core/timex/relativetime.go is replaced by a virtual clock.")
     rule = ("forced schedules: kind bulk/chunk/periodical, threshold 1..4 (bulk) or 1..8 with weights 0..4, 2..4 clients, "
             "6..28 controller actions (add/flush/wait/release/tick/clock, idle-quit patterns, in 35% of the cases the flusher is parked before "
-            "shallQuit and released explicitly), optional panicking tasks, then a "
+            "shallQuit, in 40% the quitting flusher is parked inside ticker.Stop() with Adds/Flush/Wait in that window, "
+            "and released explicitly), optional panicking tasks, then a "
             "drain; non-trivial = at least two callbacks, at least one threshold hand-over and one of {Wait, tick flush, "
             "flusher quit+restart}; distinct = canonical JSON hash of the case")
     trusted_base = [
@@ -153,9 +154,27 @@ class C11(Property):
         cs.append({"kind": "bulk", "maxw": 2, "interval": 1000, "bad": [], "nclients": 2, "gateq": True,
                    "ops": [["add", 0, 1, 1], ["tick"], ["rel", 0], ["clock", 10001], ["tick"], ["add", 1, 2, 1],
                            ["add", 1, 3, 1], ["qgo"], ["rel", 0]]})
+        # the quitting flusher is parked inside ticker.Stop() (after it cleared guarded, before its deferred
+        # Flush): Adds up to / at the threshold, Flush and Wait in that window, then release and drain
+        quit_ = [["add", 0, 1, 1], ["tick"], ["rel", 0], ["clock", 10001], ["tick"]]
+        for maxw, mid in [
+            (2, [["add", 1, 2, 1], ["add", 1, 3, 1]]),                      # threshold reached in the window
+            (1, [["add", 1, 2, 1]]),                                         # threshold 1
+            (3, [["add", 1, 2, 1]]),                                         # below the threshold
+            (2, [["add", 1, 2, 1], ["flush", 0], ["add", 1, 3, 1], ["add", 0, 4, 1]]),
+            (2, [["add", 1, 2, 1], ["wait", 0], ["add", 1, 3, 1], ["add", 1, 4, 1], ["wait", 0]]),
+            (2, [["add", 1, 2, 1], ["add", 1, 3, 1], ["rel", 0], ["clock", 20000], ["tick"], ["tick"],
+                 ["add", 0, 4, 1], ["sgo"]]),                                # two flushers parked in Stop
+        ]:
+            cs.append({"kind": "bulk", "maxw": maxw, "interval": 1000, "bad": [], "nclients": 2, "gates": True,
+                       "ops": quit_ + mid + [["sgo"], ["relall"]]})
+        cs.append({"kind": "chunk", "maxw": 4, "interval": 1000, "bad": [], "nclients": 3, "gates": True, "gateq": True,
+                   "ops": [["add", 0, 1, 1], ["tick"], ["rel", 0], ["clock", 10001], ["tick"], ["add", 2, 2, 1], ["qgo"],
+                           ["add", 1, 3, 4], ["wait", 0], ["sgo"], ["relall"]]})
         for c in cs:
             c["drain"] = True
             c.setdefault("gateq", False)
+            c.setdefault("gates", False)
         return cs
 
     def gen(self, rng, n, tier):
@@ -172,6 +191,7 @@ class C11(Property):
             ops = []
             hold = rng.random() < 0.2   # keep callbacks parked for long: hand-overs pile up
             gateq = rng.random() < 0.35  # park the flusher before shallQuit until "qgo"
+            gates = rng.random() < 0.4   # park the quitting flusher inside ticker.Stop() until "sgo"
             while len(ops) < nops:
                 r = rng.random()
                 c = rng.randrange(ncl)
@@ -203,13 +223,36 @@ class C11(Property):
                             ops.append(["add", rng.randrange(ncl), nid, w])
                             nid += 1
                         ops.append(["qgo"])
+                    if gates:
+                        # the flusher has decided to quit and sits in ticker.Stop(): Adds below and at the
+                        # threshold, Flush and Wait happen in that window, then it is released
+                        acc = 0
+                        for _ in range(rng.randint(0, 4)):
+                            r2 = rng.random()
+                            c2 = rng.randrange(ncl)
+                            if r2 < 0.65:
+                                w = 1 if kind == "bulk" else rng.choice([0, 1, 2, 4])
+                                if rng.random() < 0.4:      # make this Add reach the threshold
+                                    w = 1 if kind == "bulk" else max(1, maxw - acc)
+                                acc += w
+                                ops.append(["add", c2, nid, w])
+                                nid += 1
+                            elif r2 < 0.8:
+                                ops.append(["flush", c2])
+                            elif r2 < 0.92:
+                                ops.append(["wait", c2])
+                            else:
+                                ops.append(["tick"])
+                        ops.append(["sgo"])
                 if gateq and rng.random() < 0.08:
                     ops.append(["qgo"])
+                if gates and rng.random() < 0.08:
+                    ops.append(["sgo"])
             bad = []
             if rng.random() < 0.2 and nid > 1:
                 bad = sorted(set(rng.randrange(1, nid) for _ in range(rng.randint(1, 2))))
             cases.append({"kind": kind, "maxw": maxw, "interval": 1000, "bad": bad, "nclients": ncl,
-                          "ops": ops, "drain": True, "gateq": gateq})
+                          "ops": ops, "drain": True, "gateq": gateq, "gates": gates})
         return cases
 
     # ---- execution ---------------------------------------------------------------
@@ -241,22 +284,24 @@ class C11(Property):
             return "ATick"
         if k == "qgo":
             return "AQuitGo"
+        if k == "sgo":
+            return "AStopGo"
         return "AClock %s" % cz(a[1])
 
     def _obs(self, o):
-        return "mkObs %s %s %s %s %s %s %s %s %s %s" % (
+        return "mkObs %s %s %s %s %s %s %s %s %s %s %s" % (
             clist([cbool(b) for b in o["idle"]]),
             clist([clist([cz(t) for t in h]) for h in o["parked"]]),
             clist([cz(t) for t in o["cont"]]), cz(o["inflight"]), cbool(o["guarded"]), cbool(o["cmd"]),
-            cbool(o["tick"]), cbool(o["benter"]), cbool(o["bexit"]), cbool(o["qpark"]))
+            cbool(o["tick"]), cbool(o["benter"]), cbool(o["bexit"]), cbool(o["qpark"]), cbool(o["spark"]))
 
     def coq_case(self, case, obs):
         steps = clist(["(%s, %s)" % (self._act(s["act"]), self._obs(s["obs"])) for s in obs["steps"]])
         # an executor error (no quiescence) is a failing history: the drain flag makes final_ok fail
-        return "mkCase %s %s %s %s %s %d%%nat %s" % (
+        return "mkCase %s %s %s %s %s %s %d%%nat %s" % (
             cz(case["maxw"]), cz(case["interval"]), clist([cz(b) for b in case["bad"]]),
             cbool(bool(case.get("drain", True)) or bool(obs.get("err"))), cbool(bool(case.get("gateq"))),
-            case["nclients"], steps)
+            cbool(bool(case.get("gates"))), case["nclients"], steps)
 
     # ---- classification ----------------------------------------------------------
     def nontrivial(self, case, obs):
@@ -281,6 +326,11 @@ class C11(Property):
                 fs.append("flusher_restart")
         if any(s["obs"]["inflight"] > 0 for s in steps):
             fs.append("handover_pending")
+        if any(s["obs"].get("spark") for s in steps):
+            fs.append("flusher_parked_in_stop")
+            if any(s["obs"].get("spark") and s["act"][0] == "add" and (s["obs"]["inflight"] > 0 or s["obs"]["parked"])
+                   for s in steps):
+                fs.append("threshold_add_while_in_stop")
         if any(s["obs"]["benter"] for s in steps):
             fs.append("flusher_blocked_on_barrier")
         an = analyse(case, obs)
